@@ -2,6 +2,7 @@
 C12 — PES headers and timestamps are decoded and encoded per ISO 13818-1.
 -/
 import Astits.Proofs.Layout
+import Astits.Proofs.PESRT
 import Astits.Generated.Exprs
 namespace Astits.C12
 
@@ -76,5 +77,139 @@ theorem generated_isVideoStream : ∀ s : Fin 256, Generated.isVideoStream s.val
   decide +kernel
 
 example : parseDSMTrickMode 0x6b = { trickModeControl := 3, fieldID := 1, intraSliceRefresh := 0, frequencyTruncation := 3 } := by decide
+
+open Astits.PSIRT Astits.PESRT
+
+/-! ## Whole-header round trip (helpers in `Proofs/PESRT.lean`, namespace `Astits.PESRT`)
+
+`PESHeaderOk h`: 8-bit stream id; an optional header is present exactly for the stream ids that carry one, and it
+satisfies `PESOptOk`:
+* `MarkerBits = 2`, 2-bit scrambling control, 2-bit `PTSDTSIndicator`;
+* `PTS` present (33-bit base, extension 0) exactly when the indicator is 2 or 3, `DTS` exactly when it is 3;
+* `ESCR` (33-bit base, 9-bit extension), `ESRate` (22 bits), `DSMTrickMode` (`DSMOk`: the fields the mode uses fit
+  their bits, the others are 0), `AdditionalCopyInfo` (7 bits) present exactly when their flag is set, zero/nil otherwise;
+* no CRC and no pack header field (the writer never emits them), `HasOptionalFields = false` (never set by the parser);
+* extension: the four sub-flags are clear when `HasExtension` is clear; 16 bytes of private data, 7-bit packet sequence
+  counter / 1-bit MPEG1-or-2 id / 6-bit original stuffing length, 1-bit P-STD scale / 13-bit size, extension 2 data of
+  fewer than 128 bytes with `Extension2Length` its length — each present exactly when its flag is set;
+* `HeaderLength = calcPESOptionalHeaderDataLength h` (the parser recomputes it from the byte; no stuffing is written).
+
+Recomputed by the parser: `PacketLength` (what `writePESHeader` computes: 0 for video stream ids or above 65535,
+otherwise payload + optional header). -/
+
+/-- **PES round trip**: header and payload come back from `pesHeaderBytes h n ++ payload`, whole slice consumed; the
+header is `h` with `PacketLength` as the writer computed it -/
+theorem pes_roundtrip (h : PESHeader) (payload : Bytes) (ok : PESHeaderOk h) :
+    parsePESData ⟨pesHeaderBytes h payload.length ++ payload, 0⟩ =
+      .ok ({ data := payload, header := { h with packetLength := pesPacketLengthFor h payload.length } },
+           ⟨pesHeaderBytes h payload.length ++ payload, ((pesHeaderBytes h payload.length ++ payload).length : Nat)⟩) :=
+  parsePESData_written h payload ok
+
+/-- bounded packets: `PacketLength` = optional header + payload, the header comes back unchanged -/
+theorem pes_roundtrip_bounded (h : PESHeader) (payload : Bytes) (ok : PESHeaderOk h) (hv : isVideoStream h.streamID = false)
+    (hfit : payload.length + (if hasPESOptionalHeader h.streamID then calcPESOptionalHeaderLength h.optionalHeader else 0) ≤ 65535)
+    (hpl : h.packetLength = payload.length + (if hasPESOptionalHeader h.streamID then calcPESOptionalHeaderLength h.optionalHeader else 0)) :
+    (parsePESData.val (pesHeaderBytes h payload.length ++ payload)) = .ok { data := payload, header := h } := by
+  unfold P.val
+  rw [pes_roundtrip h payload ok]
+  simp only
+  have : pesPacketLengthFor h payload.length = h.packetLength := by
+    rw [length_rule, hpl]
+    simp only [hv, Bool.false_eq_true, if_false]
+    rw [if_neg (by omega)]
+  rw [this]
+
+/-- unbounded packets (`PacketLength = 0`): video stream ids, or more than 65535 bytes -/
+theorem pes_roundtrip_unbounded (h : PESHeader) (payload : Bytes) (ok : PESHeaderOk h) (hpl : h.packetLength = 0)
+    (hu : isVideoStream h.streamID = true ∨
+      payload.length + (if hasPESOptionalHeader h.streamID then calcPESOptionalHeaderLength h.optionalHeader else 0) > 65535) :
+    (parsePESData.val (pesHeaderBytes h payload.length ++ payload)) = .ok { data := payload, header := h } := by
+  unfold P.val
+  rw [pes_roundtrip h payload ok]
+  simp only
+  have : pesPacketLengthFor h payload.length = h.packetLength := by
+    rw [length_rule, hpl]
+    rcases hu with hv | hl
+    · simp [hv]
+    · by_cases hv : isVideoStream h.streamID = true
+      · simp [hv]
+      · have hv' : isVideoStream h.streamID = false := by simpa using hv
+        simp only [hv', Bool.false_eq_true, if_false]
+        rw [if_pos hl]
+  rw [this]
+
+/-- the optional header alone: its bytes have the announced length, and parsing them wherever they stand gives the
+header back together with the payload start `offset + 3 + PES_header_data_length` -/
+theorem pes_optional_header_roundtrip (h : PESOptionalHeader) (ok : PESOptOk h) (pre post : Bytes) :
+    (pesOptionalHeaderBytes h).length = 3 + calcPESOptionalHeaderDataLength h ∧
+    ∃ j, parsePESOptionalHeader ⟨pre ++ pesOptionalHeaderBytes h ++ post, pre.length⟩ =
+      .ok ((h, (pre.length : Int) + 3 + ((calcPESOptionalHeaderDataLength h : Nat) : Int)), j) :=
+  ⟨pesOptionalHeaderBytes_length h ok,
+   (parsePESOptionalHeader_written h ok _ _ post ⟨pre, by simp, rfl⟩).imp fun _ hj => hj.1⟩
+
+/-! #### non-vacuity -/
+
+/-- an audio header as the muxer's callers build it: PTS only -/
+def exAudioOpt : PESOptionalHeader :=
+  { markerBits := 2, ptsDTSIndicator := 2, pts := some { base := 90000, extension := 0 }, headerLength := 5, dataAlignmentIndicator := true }
+
+theorem exAudioOpt_ok : PESOptOk exAudioOpt where
+  markerBits := rfl
+  scramblingControl := by decide
+  ind := by decide
+  pts := by rw [if_pos (by decide)]; exact ⟨90000, by decide, rfl⟩
+  dts := by rw [if_neg (by decide)]; rfl
+  escr := by rw [if_neg (by decide)]; rfl
+  esRate := by rw [if_neg (by decide)]; rfl
+  dsm := by rw [if_neg (by decide)]; rfl
+  aci := by rw [if_neg (by decide)]; rfl
+  noCRC := ⟨rfl, rfl⟩
+  noOptionalFields := rfl
+  noPack := ⟨rfl, rfl⟩
+  headerLength := by decide +kernel
+  extFlags := fun _ => ⟨rfl, rfl, rfl, rfl⟩
+  priv := by rw [if_neg (by decide)]; rfl
+  psc := by rw [if_neg (by decide)]; exact ⟨rfl, rfl, rfl⟩
+  pstd := by rw [if_neg (by decide)]; exact ⟨rfl, rfl⟩
+  ext2 := by rw [if_neg (by decide)]; exact ⟨rfl, rfl⟩
+
+def exAudio : PESHeader := { streamID := 0xc0, optionalHeader := some exAudioOpt, packetLength := 8 + 100 }
+
+example : PESHeaderOk exAudio := by
+  refine ⟨by decide, ?_⟩
+  rw [if_pos (by decide)]
+  exact ⟨exAudioOpt, rfl, exAudioOpt_ok⟩
+
+/-- every optional field at once: PTS and DTS, ESCR, ES rate, trick mode, additional copy info, and the extension with
+private data, packet sequence counter, P-STD buffer and extension 2 -/
+def exFullOpt : PESOptionalHeader :=
+  { markerBits := 2, scramblingControl := 1, priority := true, isOriginal := true, ptsDTSIndicator := 3, pts := some { base := 8589934591, extension := 0 }, dts := some { base := 1, extension := 0 }, hasESCR := true, escr := some { base := 123456789, extension := 511 }, hasESRate := true, esRate := 4194303, hasDSMTrickMode := true, dsmTrickMode := some { trickModeControl := 3, fieldID := 1, intraSliceRefresh := 1, frequencyTruncation := 2 }, hasAdditionalCopyInfo := true, additionalCopyInfo := 127, hasExtension := true, hasPrivateData := true, privateData := [1, 2, 3, 4, 5, 6, 7, 8, 9, 10, 11, 12, 13, 14, 15, 16], hasProgramPacketSequenceCounter := true, packetSequenceCounter := 100, mpeg1OrMPEG2ID := 1, originalStuffingLength := 63, hasPSTDBuffer := true, pstdBufferScale := 1, pstdBufferSize := 8191, hasExtension2 := true, extension2Data := [0xaa, 0xbb], extension2Length := 2, headerLength := 45 }
+
+example : PESOptOk exFullOpt where
+  markerBits := rfl
+  scramblingControl := by decide
+  ind := by decide
+  pts := by rw [if_pos (by decide)]; exact ⟨8589934591, by decide, rfl⟩
+  dts := by rw [if_pos (by decide)]; exact ⟨1, by decide, rfl⟩
+  escr := by rw [if_pos (by decide)]; exact ⟨123456789, 511, by decide, by decide, rfl⟩
+  esRate := by rw [if_pos (by decide)]; decide
+  dsm := by rw [if_pos (by decide)]; exact ⟨_, rfl, by decide⟩
+  aci := by rw [if_pos (by decide)]; decide
+  noCRC := ⟨rfl, rfl⟩
+  noOptionalFields := rfl
+  noPack := ⟨rfl, rfl⟩
+  headerLength := by decide +kernel
+  extFlags := fun h => by cases h
+  priv := by rw [if_pos (by decide)]; rfl
+  psc := by rw [if_pos (by decide)]; decide
+  pstd := by rw [if_pos (by decide)]; decide
+  ext2 := by rw [if_pos (by decide)]; exact ⟨by decide, rfl⟩
+
+def exPadding : PESHeader := { streamID := 0xbe, optionalHeader := none }
+
+example : PESHeaderOk exPadding := by
+  refine ⟨by decide, ?_⟩
+  rw [if_neg (by decide)]
+  rfl
 
 end Astits.C12
